@@ -1439,9 +1439,6 @@ def setup(rec):
     # the only clock read on the paths exercised here is http.cookies rendering `expires=-1` (unset_cookie) relative to
     # time.time(): freeze it so that four legs run at different instants stay comparable and replays are exact
     time.time = lambda: FROZEN_NOW
-    extra = os.environ.get('VERIF_ASSUME_KNOWN')
-    if extra:
-        rec.known_keys |= set(x for x in extra.split(',') if x)
     rec.rule = ('one case = one abstract request (method, target bytes, query, ordered header list, body+chunking, scheme, '
                 'server, client, root path, HTTP version, 3 RequestOptions flags) + one responder script, run on WSGI and '
                 'ASGI through the spec drivers and, when expressible, through falcon.testing.simulate_request on both; '
